@@ -26,7 +26,7 @@ class C07(BaseCheck):
              'scales.sink:ClientTimeoutSink._TimeoutHelper')
   REQUIRED_ANCHORS = ANCHORS
   REQUIRED_CLASSES = ('queued', 'timed-out-while-queued', 'stale-at-head', 'max-waiters', 'dead-on-release',
-                      'idle-retention', 'probe', 'handover', 'closed-while-lent')
+                      'idle-retention', 'probe', 'handover', 'closed-while-lent', 'fault-before-release')
   ASSUMPTIONS = ('arrival order of queued requests = order in which their dispatch greenlets were spawned '
                  '(they do not yield before reaching the queue)',
                  'a max-waiters rejection is accepted whenever live + not-yet-skipped timed-out waiters >= '
@@ -295,8 +295,14 @@ class C07(BaseCheck):
           s = rng.choice(cands)
           if s.current is not None:
             death_cls = 'busy'
-            s.die(rng.random() < 0.5)
+            sig = rng.random() < 0.5
+            s.die(sig)
             classes.add('dead-on-release')
+            if sig and rng.random() < 0.5:
+              # the fault notification is delivered before the dead connection answers its request
+              # (a transport that fails the request from a later greenlet)
+              classes.add('fault-before-release')
+              env.settle()
             complete(s, 'connection lost')
             out.obligations += 1
             if pool.state != CLOSED:
